@@ -1436,6 +1436,9 @@ func handleClientMessage(c *webClient, m clientMessage) error {
 				s = "internal server error"
 				log.Printf("Join group: %v", err)
 			}
+			// AddClient might have set our permissions
+			// before it refused us
+			c.permissions = nil
 			username := c.username
 			return c.write(clientMessage{
 				Type:     "joined",
